@@ -83,7 +83,7 @@ def counterfactual_history(kind, sig, steps):
     raise vlib.ToolError(f"unknown counterfactual {kind}")
 
 
-def run(prop, tier, replay, make_plan, level="model_checking", panic_props=("C01",), explanation="", also_props=(), design=()):
+def run(prop, tier, replay, make_plan, level="model_checking", panic_props=("C01",), explanation="", also_props=(), design=(), extra=None):
     v = vlib.Verdict(prop, tier, level)
     ths = theories.prepare()
     rnd = random.Random(vlib.seed())
@@ -211,7 +211,14 @@ def run(prop, tier, replay, make_plan, level="model_checking", panic_props=("C01
             fam = [h2["steps"] for h2 in rows if hist["fam"] >= 0 and h2["fam"] == hist["fam"] and h2["id"] < hist["id"]][:1]
             v.violation(f"{theory}: {viol['what']} (trace line {viol['line']})",
                         {"theory": theory, "steps": hist["steps"], "fam": hist["fam"], "family": fam})
+    extra_cov = None
+    if extra is not None and replay is None:
+        extra_cov = extra(v, tier, rnd)
+        states += extra_cov.get("states", 0)
+        transitions += extra_cov.get("transitions", 0)
+        ntraces += extra_cov.get("replayed_sequences", 0) + extra_cov.get("random_sequences", 0)
     v.coverage = {
+        "extra": extra_cov,
         "states": max(states, 1),
         "transitions": max(transitions, 1),
         "traces_validated_against_impl": ntraces,
